@@ -9,6 +9,9 @@ TRUSTED_BASE = [
     "class glue correspondence: the raw two-sided estimate comes from the implementation's functional API (tied to the model under "
     "C01/C08/C12-C17/C19), the model applies slice/double/reverse and scale(); axes: Range.* vs the model's rangeBins * df",
     "float mode rtol 1e-9",
+    "MUSIC / EV selection arguments ('subglue'): music() / ev() of the functional API called with the same threshold / criteria / NSIG "
+    "give the raw centre-DC estimate, the model folds it; the class must hand the arguments through unchanged (rtol 1e-9; the two sides "
+    "run the same SVD, observed difference 0)",
     "placement oracle ('place'): numpy evaluation of c*rho/fs*|B(f_j)|^2/|A(f_j)|^2 at the frequencies the object reports, from the "
     "coefficients the object stores (aryule's rho for pyule, which does not store it); per-entry rtol 1e-9 (library: <= 1e-13)",
 ]
@@ -38,13 +41,29 @@ ASSUMPTIONS = ["tone amplitude 1, noise 1e-3; real sinusoids at least 4 main-lob
                "MUSIC / EV: number of exponentials <= NSIG <= order-2 or NSIG = order-1 = number of exponentials (a single noise vector "
                "with spare roots has spurious nulls), NSIG chosen by the library (aic, mdl, threshold 2) at order = number of "
                "exponentials + 1, threshold 100 at any order",
+               "MUSIC / EV with the subspace chosen by threshold / criteria / NSIG: the 'finite' clause is evaluated on noisy records and on "
+               "noiseless records whose components lie BETWEEN the bins (a noiseless exponential exactly on a bin is an exact null of the "
+               "noise subspace: the pseudo-spectrum is 1/0 there; observed inf for on-grid noiseless records and for the 'dominant DC' "
+               "record derived from a noiseless one, so noiseless / impulse records get no derived degenerate records); tone clause at "
+               "threshold < 100 and criteria aic / mdl only at order = number of exponentials + 1, threshold 100 at any larger order, "
+               "threshold 1e9 (NSIG 0 -> 1) for one complex exponential, explicit NSIG as above",
+               "option maxima (short records, 12..17 samples): generic noisy records only (no derived scaled / degenerate records: the fits "
+               "are exactly determined or nearly so); adaptive multitaper with k >= 2",
                "shape clause through constructor defaults: list / integer / float32 / complex-with-zero-imaginary data, integer "
                "sampling, numpy-integer NFFT, o() and o.run() entry points, N in 6..16 with minimal orders"]
 RULE = ("14 estimator class variants x real/complex x N in {32,33,47,64} x NFFT in {None, nextpow2, 64, 65, 2N, 2N+1, 97} (full product "
         "in the thorough tier; every class meets every NFFT choice in each quick run) x sampling x tone bin k (positive, negative and "
         "boundary bins 0, +-1, +-NFFT/2, +-(NFFT//2-1)) x default / random / boundary configurations; entry-by-entry placement of the "
         "6 model-based classes x real/complex x N in {32,33} x NFFT in {None, nextpow2, 64, 65} x sampling in {1, 250}; constructor "
-        "defaults x data containers / dtypes x entry points; non-trivial = all")
+        "defaults x data containers / dtypes x entry points; MUSIC / EV x every documented way of choosing the signal subspace "
+        "(threshold exactly 1 as int / float / numpy float64, int64, float32; 1+1e-12, 1+2^-52, 1.5, 2, 3, 100, 1e9; criteria aic / mdl; "
+        "explicit NSIG 0, random, number of exponentials, P-1) x order 2..9 and the largest admissible order 2N/3 x records (noise + "
+        "tones, one tone in noise 1e-3, 1..3 noiseless off-grid components with noise singular values at round-off, impulse / impulse "
+        "train records with exactly tied or exactly zero singular values) x real/complex x N x NFFT x sampling: shape clause always, "
+        "tone clause where stated, and for a third of the noisy records the class estimate against the functional API called with the "
+        "same selection arguments folded by the model; every class at the maxima of its option ranges on records of 12..17 samples "
+        "(lag N-1, Burg order N-2, Yule-Walker N-1, covariance N/2-1, minimum variance N/2, ARMA / MA longest lag, MUSIC / EV order 2N/3 "
+        "with NSIG 0, 1, P-1, multitaper NW just below N/2 with k = 1, 2, 2NW); non-trivial = all")
 
 SIDES = ["onesided", "twosided", "centerdc"]
 
@@ -64,12 +83,17 @@ def model_glue(p):
 def oracle_shape(p):
     x = np.asarray(p["x"])
     cls = p["cls"]
-    o = C.make(cls, x, p["nfft"], p["fs"], False, p.get("cfg"))
+    if cls in ("pmusic", "pev") and p.get("cfg") and ("criteria" in p["cfg"] or "threshold" in p["cfg"]):
+        o = _build(dict(p, x=x))
+    else:
+        o = C.make(cls, x, p["nfft"], p["fs"], False, p.get("cfg"))
     psd = np.asarray(o.psd)
     f = np.asarray(o.frequencies())
     nfft = C.resolved_nfft(x, p["nfft"])
     out = []
     tag = "%s %s N=%d NFFT=%s" % (cls, "complex" if np.iscomplexobj(x) else "real", len(x), p["nfft"])
+    if p.get("cfg") and cls in ("pmusic", "pev"):
+        tag += " cfg=%s" % (p["cfg"],)
     if o.NFFT != nfft:
         out.append("%s: NFFT attribute is %r, expected %d" % (tag, o.NFFT, nfft))
     L = C.expected_len(np.isrealobj(x), nfft)
@@ -78,7 +102,7 @@ def oracle_shape(p):
     if len(f) != len(psd):
         out.append("%s: %d psd values but frequencies() returns %d" % (tag, len(psd), len(f)))
     if np.iscomplexobj(psd) or not np.all(np.isfinite(psd)):
-        out.append("%s: psd is not real and finite" % tag)
+        out.append("%s: psd is not real and finite (%d of %d values are not finite)" % (tag, int(np.sum(~np.isfinite(psd))), len(psd)))
     for sd in ("onesided", "twosided", "centerdc"):
         if sd == "onesided" and np.iscomplexobj(x):
             continue
@@ -110,6 +134,16 @@ def post_axis(p, iv, mv):
     return iv, M
 
 
+_THR_TYPES = {"int": int, "float": float, "float64": np.float64, "int64": np.int64, "float32": np.float32}
+
+
+def _thr(cfg):
+    """the `threshold` argument in the scalar type named by cfg['thr_type'] (replay files hold plain JSON numbers)"""
+    v = cfg["threshold"]
+    t = cfg.get("thr_type")
+    return _THR_TYPES[t](v) if t in _THR_TYPES else v
+
+
 def _make(cls, x, cfg, **kw):
     """the constructor call of C.make with the keyword arguments left to the caller: the ones not given take the constructor's own
     defaults (scale_by_freq, NFFT, sampling); pmusic / pev also take `criteria` and `threshold` from cfg"""
@@ -134,6 +168,8 @@ def _make(cls, x, cfg, **kw):
         return s.pminvar(x, cfg["order"], **kw)
     if cls in ("pmusic", "pev"):
         extra = dict((k, cfg[k]) for k in ("criteria", "threshold") if k in cfg)
+        if "threshold" in cfg:
+            extra["threshold"] = _thr(cfg)
         extra.update(kw)
         return getattr(s, cls)(x, cfg["order"], NSIG=cfg.get("nsig"), **extra)
     if cls.startswith("MT-"):
@@ -577,6 +613,232 @@ KINDS["daniell"] = {"oracle": oracle_daniell, "key": lambda p: "daniell|%d|%d|%s
                     "tags": lambda p: ["daniell"]}
 NO_VARY = set(globals().get("NO_VARY", set())) | {"daniell"}
 
+# ---- MUSIC / EV: every documented way of choosing the signal subspace ---------------------------------------------------------------
+# `threshold` (signal subspace = singular values larger than threshold x the smallest one; documented range threshold >= 1, smaller
+# values are rejected) at the boundary of its range in every scalar type, just above it and far above it, `criteria` 'aic' / 'mdl', and
+# an explicit NSIG from 0 to P-1 - on noisy records, tones in noise, noiseless records (rank-deficient data matrix: the noise singular
+# values are at round-off level, threshold x min(S) falls among them) and impulse records (the data matrix has orthogonal columns:
+# singular values exactly tied, also at the minimum).
+
+SUB_CLS = ("pmusic", "pev")
+# (value, scalar type): exactly 1 in five types, just above 1, moderate, huge (every singular value is below 1e9 x min: NSIG 0 -> 1)
+SUB_THRESHOLDS = [(1, "int"), (1.0, "float"), (1.0, "float64"), (1, "int64"), (1.0, "float32"), (1 + 1e-12, "float"),
+                  (1 + 2.0 ** -52, "float64"), (1.5, "float"), (3, "int"), (2, "int64"), (100.0, "float"), (1e9, "float")]
+SUB_SELECT = [("thr", j) for j in range(len(SUB_THRESHOLDS))] + [("crit", "aic"), ("crit", "mdl"),
+                                                                  ("nsig", "0"), ("nsig", "mid"), ("nsig", "max"), ("nsig", "ne")]
+
+
+def _sub_cfg(nrng, sel, P, ne):
+    if sel[0] == "thr":
+        v, t = SUB_THRESHOLDS[sel[1]]
+        return {"order": P, "nsig": None, "threshold": v, "thr_type": t}
+    if sel[0] == "crit":
+        return {"order": P, "nsig": None, "criteria": sel[1]}
+    ns = {"0": 0, "max": P - 1, "ne": min(ne, P - 1), "mid": int(nrng.integers(0, P))}[sel[1]]
+    return {"order": P, "nsig": ns}
+
+
+def _sub_tone_domain(cfg, ne, cplx):
+    """is the tone clause stated for this configuration (see ASSUMPTIONS: the noise subspace keeps at least two vectors or has no spare
+    root, and holds no signal direction)?  The tone is 1000 times the noise: every threshold up to 100 separates them, and the noise
+    singular values of the records generated here lie within a factor 100 of each other, so that below 100 the number of selected values
+    may be anything from the number of exponentials to P-1 -> stated at P = number of exponentials + 1 only"""
+    P = cfg["order"]
+    if "threshold" in cfg:
+        v = cfg["threshold"]
+        if v >= 1e6:
+            return cplx                       # NSIG 0 -> 1: one exponential only
+        if v >= 100:
+            return P >= ne + 1
+        return P == ne + 1
+    if "criteria" in cfg:
+        return P == ne + 1
+    ns = cfg["nsig"]
+    return (ne <= ns <= P - 2) or (ns == P - 1 == ne)
+
+
+def _clean_record(nrng, N, cplx, K):
+    """K noiseless components at frequencies BETWEEN the bins of every NFFT used here (an exponential exactly on a bin is an exact null
+    of the noise subspace: the pseudo-spectrum is 1/0 there, mathematically infinite - outside the 'finite' clause)"""
+    n = np.arange(N)
+    x = np.zeros(N, dtype=complex if cplx else float)
+    for j in range(K):
+        f = float(nrng.uniform(0.03, 0.47))
+        a = float(nrng.uniform(0.5, 2.0))
+        ph = float(nrng.uniform(0, 6))
+        if cplx:
+            x = x + a * np.exp((2j * np.pi * f * (1 if nrng.integers(0, 2) else -1)) * n + 1j * ph)
+        else:
+            x = x + a * np.cos(2 * np.pi * f * n + ph)
+    return x
+
+
+def _impulse_record(nrng, N, cplx, P):
+    """one impulse, or an impulse train of period q >= P: the columns of the forward-backward data matrix are orthogonal, several (all)
+    singular values are exactly equal"""
+    a = float(nrng.uniform(0.5, 2.0)) * (np.exp(1j * float(nrng.uniform(0, 6))) if cplx else 1.0)
+    x = np.zeros(N, dtype=complex if cplx else float)
+    if nrng.integers(0, 2):
+        x[int(nrng.integers(0, N))] = a
+    else:
+        q = int(nrng.integers(P, P + 4))
+        x[int(nrng.integers(0, q))::q] = a
+    return x
+
+
+def oracle_sub(p):
+    """shape clause (real, finite, as many values as frequencies(), frequencies k*sampling/NFFT) and, where p holds a tone bin `k`
+    (generated only inside the tone clause's domain), the tone clause"""
+    out = oracle_shape(p)
+    if "k" in p and not out:
+        out += oracle_tone(p)
+    return out
+
+
+def impl_subglue(p):
+    return [np.asarray(_build(p).psd)]
+
+
+def model_subglue(p):
+    """the raw centre-DC estimate of the functional API called with the SAME selection arguments, folded by the model: the class must
+    hand threshold / criteria / NSIG through to eigen() unchanged"""
+    x = np.asarray(p["x"])
+    cfg = p["cfg"]
+    nfft = C.resolved_nfft(x, p["nfft"])
+    f = C.sp().music if p["cls"] == "pmusic" else C.sp().ev
+    kw = {}
+    if "threshold" in cfg:
+        kw["threshold"] = _thr(cfg)
+    if "criteria" in cfg:
+        kw["criteria"] = cfg["criteria"]
+    raw = np.asarray(f(x, cfg["order"], NSIG=cfg.get("nsig"), NFFT=nfft, **kw)[0])
+    return C.glue_request(p["cls"], raw, np.isrealobj(x), nfft, False, p["fs"])
+
+
+def _sub_tags(p):
+    cfg = p.get("cfg") or {}
+    out = _tags(p)
+    if "threshold" in cfg:
+        v = cfg["threshold"]
+        out.append("subspace:threshold" + ("=1(%s)" % cfg.get("thr_type") if v == 1 else ("<=1+1e-12" if v < 1.0001 else
+                                                                                        (">=1e6" if v >= 1e6 else " moderate"))))
+    elif "criteria" in cfg:
+        out.append("subspace:" + cfg["criteria"])
+    elif cfg.get("nsig") is not None:
+        ns, P = cfg["nsig"], cfg["order"]
+        out.append("subspace:NSIG" + ("=0" if ns == 0 else ("=P-1" if ns == P - 1 else "")))
+    if p.get("data"):
+        out.append("record:" + p["data"])
+    return out
+
+
+KINDS["subshape"] = {"oracle": oracle_sub, "key": _key, "tags": _sub_tags}
+KINDS["subtone"] = {"oracle": oracle_sub, "key": _key, "tags": _sub_tags}
+KINDS["subglue"] = {"impl": impl_subglue, "model": model_subglue, "oracle": oracle_sub, "rtol": 1e-9, "atol": 1e-300, "key": _key,
+                    "tags": _sub_tags}
+# noiseless / impulse records: the derived "dominant tone exactly at DC / Nyquist" records would put a NOISELESS exponential exactly on a
+# bin - an exact null of the noise subspace, pseudo-spectrum 1/0 (observed: inf at bin 0 for pev, order 10, on such a record)
+KINDS["subexact"] = {"oracle": oracle_sub, "key": _key, "tags": _sub_tags}
+NO_DEGEN = NO_DEGEN | {"subtone", "subexact"}
+
+
+def _sub_cases(nrng, quick):
+    """MUSIC / EV x way of choosing the signal subspace x record type x real/complex x N x NFFT x order.  Every (class, selector) pair
+    meets 3 (quick) record types per run; tone records inside the tone clause's domain also carry the tone clause"""
+    nsel = len(SUB_SELECT)
+    kinds = ["noise", "tone", "clean", "impulse"]
+    reps = 3 if quick else 16
+    off = int(nrng.integers(0, 4))
+    for i in range(2 * nsel * reps):
+        cls = SUB_CLS[i % 2]
+        sel = SUB_SELECT[(i // 2) % nsel]
+        r = i // (2 * nsel)
+        data = kinds[(r + (i // 2) + off) % 4]
+        cplx = bool(nrng.integers(0, 2))
+        ne = 1 if cplx else 2
+        N = _pick(nrng, [24, 25, 32, 33, 40])
+        nf = _pick(nrng, [None, "nextpow2", 64, 65, 97])
+        nfft = C.resolved_nfft(np.zeros(N), nf)
+        fs = _pick(nrng, [1.0, 2.0, 250.0])
+        P = int(nrng.integers(2, 10))
+        if nrng.integers(0, 8) == 0:
+            # the largest admissible order: 2*(N-P) > P-1
+            N = _pick(nrng, [12, 13, 16])
+            nf = _pick(nrng, [None, 64, 65])
+            nfft = C.resolved_nfft(np.zeros(N), nf)
+            P = (2 * N) // 3
+        k = None
+        if data == "tone":
+            # half of the tone records: an order at which the tone clause is stated for this selector
+            if nrng.integers(0, 2):
+                P = ne + 1 if sel[0] in ("thr", "crit") and not (sel[0] == "thr" and SUB_THRESHOLDS[sel[1]][0] >= 100) else max(P, ne + 1)
+            k = int(nrng.integers(-(nfft // 2) + 1, nfft // 2)) if cplx else _real_k(nrng, cls, N, nfft, {"order": P})
+            x = _tone_data(nrng, N, nfft, k, cplx)
+        elif data == "noise":
+            x = C.test_data(nrng, N, cplx)
+        elif data == "clean":
+            x = _clean_record(nrng, N, cplx, int(nrng.integers(1, 4)))
+        else:
+            x = _impulse_record(nrng, N, cplx, P)
+        cfg = _sub_cfg(nrng, sel, P, ne)
+        p = {"cls": cls, "x": x, "nfft": nf, "fs": fs, "cfg": cfg, "data": data}
+        if data == "tone" and _sub_tone_domain(cfg, ne, cplx):
+            p["k"] = k
+            yield ("subtone", p)
+        elif data in ("noise", "tone") and i % 3 == 0:
+            yield ("subglue", p)
+        elif data in ("clean", "impulse"):
+            yield ("subexact", p)
+        else:
+            yield ("subshape", p)
+
+
+# ---- boundary values of the option ranges of the other classes at short records (the caps of C.random_cfg(boundary=True) - order <= 12,
+# NW <= 4 - keep them away from N): lag = N-1, Burg order N-2, Yule-Walker order N-1, covariance orders N/2-1, minimum variance order
+# N/2, ARMA / MA at their longest lag, MUSIC / EV order 2N/3 with NSIG 1 and P-1, multitaper NW just below N/2 with k = 1, 2 and 2NW
+
+def _max_cfgs(cls, N):
+    if cls == "Periodogram":
+        return []
+    if cls == "pcorrelogram":
+        return [{"lag": N - 1, "window": "hamming"}, {"lag": N - 1, "window": "rectangular"}]
+    if cls == "pburg":
+        return [{"order": N - 2}]
+    if cls == "pyule":
+        return [{"order": N - 1}]
+    if cls in ("pcovar", "pmodcovar"):
+        return [{"order": N // 2 - 1}]
+    if cls == "pminvar":
+        return [{"order": N // 2}]
+    if cls == "parma":
+        return [{"order": 3, "Q": 3, "lag": N - 3}, {"order": 1, "Q": 1, "lag": N - 1}]
+    if cls == "pma":
+        return [{"Q": 3, "M": N - 1}, {"Q": 1, "M": N - 1}]
+    if cls in ("pmusic", "pev"):
+        P = (2 * N) // 3
+        return [{"order": P, "nsig": 1}, {"order": P, "nsig": P - 1}, {"order": P, "nsig": 0}]
+    NW = [N / 2.0 - 2.0 ** -10, N / 2.0 - 0.5, (N - 1) / 2.0][N % 3]
+    ks = [2, int(2 * NW)] + ([] if cls == "MT-adapt" else [1])      # adaptive weights need two tapers (known finding)
+    return [{"NW": NW, "k": k} for k in ks]
+
+
+def _max_cases(nrng, quick):
+    for cls in C.CLASSES:
+        for N in ((12, 13, 16, 17) if not quick else (_pick(nrng, [12, 16]), _pick(nrng, [13, 17]))):
+            cfgs = _max_cfgs(cls, N)
+            if quick and len(cfgs) > 1:
+                j = int(nrng.integers(0, len(cfgs)))
+                cfgs = [cfgs[j], cfgs[(j + 1) % len(cfgs)]][:2]
+            for cfg in cfgs:
+                cplx = bool(nrng.integers(0, 2))
+                x = C.test_data(nrng, N, cplx)
+                need = C.min_nfft(cls, N, cfg)
+                w = _pick(nrng, [None, 32, 33])
+                nfft = max(w, need, N) if w else (None if need <= N else need)
+                # "variant" is preset: these near-singular fits are made on generic records only, no derived degenerate / scaled records
+                yield ("glue", {"cls": cls, "x": x, "nfft": nfft, "fs": _pick(nrng, [1.0, 250.0]), "cfg": cfg, "variant": "option-maximum"})
+
+
 def gen(rng, nrng, tier):
     r7 = np.random.default_rng(7)
     yield ("daniell", {"x": r7.standard_normal(40), "P": 2, "nfft": 32, "fs": 1.0})
@@ -712,3 +974,10 @@ def gen(rng, nrng, tier):
         nfft = C.resolved_nfft(np.zeros(N), nf)
         x = _tone_data(nrng, N, nfft, k, True)
         yield ("tone", {"cls": cls, "x": x, "nfft": nf, "fs": _pick(nrng, [1.0, 2.0, 250.0]), "k": k})
+    # ---- MUSIC / EV: every documented way of choosing the signal subspace (threshold at and above the boundary of its range, criteria,
+    # explicit NSIG 0..P-1) x noisy / tone / noiseless / impulse records
+    for c in _sub_cases(nrng, quick):
+        yield c
+    # ---- the other classes at the maxima of their option ranges (short records)
+    for c in _max_cases(nrng, quick):
+        yield c
